@@ -58,7 +58,7 @@ def gen(seed, run, tier='quick'):
             w[k] = 0
     kinds = list(w)
     weights = [w[k] for k in kinds]
-    n_ops = rng.randrange(4, MAX_OPS + 1)
+    n_ops = rng.randrange(4, (90 if tier == 'thorough' else MAX_OPS) + 1)
     ops = []
     n_base0 = 0 if variant == 'predefined' and rng.random() < 0.5 \
         else rng.choice([1, 2, 2, 3])
